@@ -94,9 +94,23 @@ Ops        == UnaryOps \cup BinaryOps
 \*    final word, the undefined is never asked;
 \*  - pickling an instance of the class made by make_logging_undefined (a
 \*    function-local class, not importable by name).
-Determined(logging, op, side, other) ==
+\*  - `v == s` / `v != s` with a strict undefined `s` to the right of a non-strict undefined
+\*    `v` of a type StrictUndefined does not derive from (anything but the plain default type):
+\*    again Python gives the left operand the first and final word (`v` answers "not my type"),
+\*    the strict operand is never asked.  (`s == v`, and `v == s` for a `v` of the plain
+\*    default type - StrictUndefined is a subclass of it and is therefore asked first - are
+\*    determined: strict barks.)
+StrictRightOfSibling(b, logging, op, side, other) ==
+    /\ op \in {"eq", "ne"} /\ other \in Foreign
+    /\ LET ob == OtherBase(b, other)
+           lb == IF side = "l" THEN b ELSE ob                 \* the type of the left operand ...
+           ll == IF side = "l" THEN logging ELSE FALSE
+           rb == IF side = "l" THEN ob ELSE b                 \* ... and the base of the right one
+       IN rb = "Strict" /\ lb # "Strict" /\ ~(lb = "Undefined" /\ ~ll)
+Determined(b, logging, op, side, other) ==
     /\ ~(op = "mod" /\ side = "r" /\ other = "str")
     /\ ~(op = "pickle" /\ logging)
+    /\ ~StrictRightOfSibling(b, logging, op, side, other)
 
 \* strict "barks on ... all kinds of comparisons": also when it is the other operand
 StrictOperand(base, op, other) == op \in BinaryOps /\ other \in Foreign /\ OtherBase(base, other) = "Strict"
@@ -340,7 +354,7 @@ SidesOf(op)  == IF op \in BinaryOps THEN {"l", "r"} ELSE {"l"}
 \* the final operation of the chain (an access may be final, too)
 Final(op, side, other) ==
     /\ cur = "undef"
-    /\ Determined(logging, op, side, other)
+    /\ Determined(base, logging, op, side, other)
     /\ cur' = "done"
     /\ last' = [op |-> op, side |-> side, other |-> other]
     /\ res' = Result(base, logging, origin, op, side, other)
